@@ -218,5 +218,38 @@ pub fn scenarios(tier: Tier) -> Vec<Scenario> {
         add_fwd(2, 2);
         add_fwd(1, 3);
     }
+    // thunks must get a dispatcher for their own store: each store's action returns a thunk that
+    // dispatches a child; the child must be folded into the same store's state
+    {
+        let mut a = StoreSpec::new(1, 2, Pol::Block);
+        a.name = Some("same");
+        let mut b = StoreSpec::new(1, 2, Pol::Block);
+        b.name = Some("same");
+        let mut prog = Program::new(a);
+        prog.stores.push(b);
+        prog = prog.thread_on("pa", 0, vec![Op::Dispatch(Act::new(100).eff(0, EFF_THUNK_DISPATCH))]);
+        prog = prog.thread_on("pb", 1, vec![Op::Dispatch(Act::new(200).eff(0, EFF_THUNK_DISPATCH))]);
+        prog = prog.main(vec![
+            Op::AddSub { id: 1, gated: false, reads: false },
+            Op::On(1, Box::new(Op::AddSub { id: 2, gated: false, reads: false })),
+            Op::SpawnAll,
+            Op::JoinAll,
+            Op::Quiesce,
+            Op::Stop,
+            Op::GetState(1),
+            Op::On(1, Box::new(Op::Stop)),
+            Op::On(1, Box::new(Op::GetState(101))),
+        ]);
+        v.push(scn("C19/thunks".to_string(), prog, if tier == Tier::Quick { 1 } else { 2 }, opts_elide(), |r, p| {
+            let mut f = check(r, p);
+            let pi = pipe(r);
+            for (parent, child) in [(100u32, 1100u32), (200, 1200)] {
+                if pi.order.contains(&parent) && !pi.order.contains(&child) {
+                    f.push(fnd("thunk-child-lost", format!("the child {} dispatched by the thunk of action {} was never reduced", child, parent)));
+                }
+            }
+            f
+        }));
+    }
     v
 }
